@@ -116,9 +116,29 @@ class DriverInterp(Interp):
             item = Ref(cell, 0)
         else:
             self.unsupported("for loop over %r" % (itv,), e)
+        original = deep(vec.elem)
+        before = {k: freeze(c[0]) for k, c in env.items()}
         if not self.bind(pat, item, env):
             self.unsupported("for pattern", e)
+        bound = {k for k in env if k not in before}
         self.ev(body, env)
+        carried = [k for k, c in env.items() if k in before and unref(c[0]) is not vec and freeze(c[0]) != before[k]]
+        if carried:
+            # state is carried between iterations: the body is element-uniform only if a second iteration on the carried
+            # state produces the same element (modulo the index symbol)
+            idx2 = vec.idx + "'"
+            cell2 = [rename_val(deep(original), {vec.idx: idx2})]
+            if isinstance(itv, EnumV):
+                item2 = Tup([Sc(Poly.var(idx2)), Ref(cell2, 0)])
+            else:
+                item2 = Ref(cell2, 0)
+            self.bind(pat, item2, env)
+            self.ev(body, env)
+            want = freeze(cell[0], {vec.idx: idx2})
+            got = freeze(cell2[0])
+            if want != got:
+                raise NonUniformLoop("the loop carries state between iterations and is not element-uniform: iteration %s produces %r "
+                                     "where %r is required" % (idx2, unref(cell2[0]), rename_val(cell[0], {vec.idx: idx2})), self.loc(e))
         vec.elem = cell[0]
         return UNIT
 
@@ -140,6 +160,48 @@ class DriverInterp(Interp):
             if isinstance(base, Mat):
                 return (MatIndex(base, idx_name(i)), 0)
         return Interp.place(self, e, env)
+
+
+class NonUniformLoop(Exception):
+    def __init__(self, msg, loc):
+        Exception.__init__(self, msg)
+        self.loc = loc
+
+
+def freeze(v, ren=None):
+    v = unref(v)
+    if isinstance(v, Sc):
+        p = v.v
+        if ren and hasattr(p, "rename_idx"):
+            p = p.rename_idx(ren)
+        return ("sc", p.key() if hasattr(p, "key") else repr(p))
+    if isinstance(v, Mat):
+        p = v.p
+        if p is not None and ren:
+            p = p.rename_idx(ren)
+        return ("mat", None if p is None else p.key(), v.shape)
+    if isinstance(v, Rec):
+        return ("rec", v.adt, tuple((k, freeze(x, ren)) for k, x in sorted(v.f.items())))
+    if isinstance(v, Opt):
+        return ("opt", freeze(v.v, ren) if v.some else None)
+    if isinstance(v, Tup):
+        return ("tup", tuple(freeze(x, ren) for x in v.vs))
+    if isinstance(v, VecV):
+        return ("vec", v.dim, v.idx, freeze(v.elem, ren))
+    return ("other", type(v).__name__, id(v) if not isinstance(v, (DimV,)) else v.name)
+
+
+def rename_val(v, ren):
+    v = unref(v)
+    if isinstance(v, Sc):
+        return Sc(v.v.rename_idx(ren))
+    if isinstance(v, Mat):
+        return Mat(v.p.rename_idx(ren) if v.p is not None else None, v.shape)
+    if isinstance(v, Rec):
+        return Rec(v.adt, {k: rename_val(x, ren) for k, x in v.f.items()})
+    if isinstance(v, Opt):
+        return Opt(v.some, rename_val(v.v, ren) if v.some else None)
+    return v
 
 
 def idx_name(i):
@@ -460,6 +522,9 @@ def gradient_like(chk, F, fns):
                 check_outputs(chk, key, F, body, val, cs["outs"](res))
                 if variant.startswith("try_"):
                     error_passthrough(chk, key, F, body, mk_args())
+            except NonUniformLoop as ex:
+                chk.ob(key + "|uniform", False, "every element of the input is seeded by the same rule applied to its own index "
+                       "(no state carried from earlier elements)", ex.loc, found=str(ex)[:400], required="element-uniform seeding loop")
             except Unsupported as ex:
                 chk.undecide(key, "unsupported: %s" % ex, body_loc(F, body))
 
